@@ -70,7 +70,7 @@ CHECKS = {
    design="4/C03"),
  "C06": dict(
    technique="structure-aware fault-injection fuzzing plus coverage-guided fuzzing: proptest-generated fault lists applied to valid documents of 14 kinds built by the harness encoders (field-level boundary values, truncation, record length lies, token surgery on formula records, FAT/DIFAT/directory edits incl. cycles with inflated counts, XML attribute and reference edits, repeat counts, OVBA chunk edits, raw byte mutations); the same documents unfaulted; an exhaustive sweep of every formula token id x 0-11 operand bytes in xls and xlsb; thorough adds two libFuzzer targets (raw bytes; part list packed into a zip inside the target) whose artifacts are re-classified by the same oracle. Oracle = every reader and every read call returns, under fork-per-case isolation with a counting/limiting allocator (memory), thread-CPU clock and double-confirmed timeout (time), panic capture with overflow checks on; saved regression corpus of one input per historical panic signature",
-   text="Each case assembles a valid file of one of 14 kinds, applies 1-3 faults aimed at a structural element (so that inputs get past the container checks), and drives the complete read API of all four readers, auto-detection and the VBA reader in a persistent worker process with debug assertions and overflow checks enabled. Verdicts: panic (signature = source line text), allocation taking the live heap beyond 256 MiB for inputs <= 1 MiB (refused by the allocator, attributed to the owner of the largest block), > 10 s CPU or no answer within the case timeout twice. Quick: 48k faulted + 12k well-formed files + 6096 token/length combinations + about 58k items of a deterministic boundary sweep (every field position near the start of every record x 10 boundary values, every record lengthened or shortened by a few bytes, every XML attribute x its menu, cut points, dropped end tags, compound-file header/FAT/directory words; all structural items and every 4th field item, everything in thorough) + 86 regression inputs; thorough: 400k + 100k + 12192 + the full sweep over two document sets + a 10-minute two-target libFuzzer campaign. Exploration: the fault menu is fixed; libFuzzer is bounded by time.",
+   text="Each case assembles a valid file of one of 14 kinds, applies 1-3 faults aimed at a structural element (so that inputs get past the container checks), and drives the complete read API of all four readers, auto-detection and the VBA reader in a persistent worker process with debug assertions and overflow checks enabled. Verdicts: panic (signature = source line text), allocation taking the live heap beyond 256 MiB for inputs <= 1 MiB (refused by the allocator, attributed to the owner of the largest block), > 10 s CPU or no answer within the case timeout twice. Quick: 48k faulted + 12k well-formed files + 6096 token/length combinations + about 58k items of a deterministic boundary sweep (every field position near the start of every record x 10 boundary values, every record lengthened or shortened by a few bytes, every XML attribute x its menu, cut points, dropped end tags, compound-file header/FAT/directory words; all structural items and every 4th field item, everything in thorough) + 86 regression inputs; thorough: 800k + 200k + 12192 + the full sweep over two document sets + a 10-minute two-target libFuzzer campaign. Exploration: the fault menu is fixed; libFuzzer is bounded by time.",
    note="Three recorded known findings (dense Range allocation, identified by the allocating call site from_sparse / new / ods get_range) are tolerated by signature and printed as KNOWN-FINDING; any other signature is a violation. Time limits are CPU-time based with a wall-clock confirmation; a harness failure to isolate exits 2.",
    design="4/C06"),
  "C07": dict(
